@@ -4,6 +4,7 @@ import (
 	"encoding/json"
 	"fmt"
 	"os"
+	"reflect"
 	"sort"
 	"strconv"
 	"strings"
@@ -51,6 +52,7 @@ type Report struct {
 	deadline   time.Time
 	sampleSeen int64
 	seed       int64
+	match      any
 }
 
 // Env describes how the shard was invoked.
@@ -94,6 +96,13 @@ func NewReport(e Env, engine string) *Report {
 	if e.Deadline > 0 {
 		r.deadline = r.start.Add(e.Deadline)
 	}
+	if m := os.Getenv("VERIF_REPLAY_MATCH"); m != "" {
+		var rf struct {
+			Replay any `json:"replay"`
+		}
+		ReadJSON(m, &rf)
+		r.match = rf.Replay
+	}
 	return r
 }
 
@@ -116,6 +125,15 @@ func (r *Report) Outcome(k string) { r.Outcomes[k]++ }
 // Violate records a violation (at most 5 full records per kind; all are counted).
 func (r *Report) Violate(v Violation) {
 	v.Property = r.Property
+	if r.match != nil {
+		// replay-by-filter: the whole (cheap) check is re-run and only the recorded case counts
+		b, _ := json.Marshal(v.Replay)
+		var got any
+		_ = json.Unmarshal(b, &got)
+		if !reflect.DeepEqual(got, r.match) {
+			return
+		}
+	}
 	r.ViolationCounts[v.Kind]++
 	if r.ViolationCounts[v.Kind] <= 5 {
 		r.Violations = append(r.Violations, v)
